@@ -1,6 +1,6 @@
 CONSTANTS Family = "H2"
   G = 4
-  MaxV = 0
+  MaxV = 2
   Emit = TRUE
   StartRows = {}
 INIT Init
